@@ -63,7 +63,9 @@ def run_case(acc, case):
     busy, final = schedule(rng, 3 * npages + 2, case.get('heavy', False))
     dev = dfusim.Device(variant, pattern_seed=case['sched'], busy=busy, final_delay=final, start_error=case.get('start_error', False))
     fifo = case['sched'] % 11 == 5
-    r = dfusim.run(fw, dev, via_fifo=fifo)
+    optimize = case['sched'] % 5 == 2          # the module as `python -O` runs it
+    acc['ctr']['runs_without_asserts'] += optimize
+    r = dfusim.run(fw, dev, via_fifo=fifo, optimize=optimize)
     core.see(acc, 'firmware_delivery', 'named pipe' if fifo else 'regular file')
     acc['n'] += 1
     acc['ctr']['requests_seen'] += len(dev.log)
